@@ -15,6 +15,7 @@
     [t] is the result of any sequence of [myth_setspecific] calls (any keys, any
     values, also NULL, also out-of-range keys) on a fresh thread. *)
 From Coq Require Import ZArith List Permutation.
+From MT Require Import Tls.TlsKeysModel Tls.TlsKeysProofs.
 From MT Require Import Tls.TlsTreeModel Tls.TlsTreeProofs Tls.TlsDestroyModel Tls.TlsDestroyProofs.
 Import ListNotations.
 Local Open Scope Z_scope.
@@ -46,6 +47,26 @@ Theorem C11_exact : forall c, 0 < c_leaf c -> 0 <= c_pool c -> forall dt kg t, r
     (forall o, In o (frees_of evs) <-> exists id sz, o = Heap id /\ In (o, sz) (nodes c (root t))).
 Proof. exact fini_property. Qed.
 Print Assumptions C11_exact.
+
+(** The property speaks about LIVE keys.  [C11_exact] holds for every destructor column; what links the
+    column to liveness is the key allocator: [myth_key_delete] clears the destructor cell (commit 7f58d46),
+    so after every history of creates and deletes the column is NULL outside the live keys
+    ([C10_deleted_key_no_destructor]).  With the column and the generation column the thread exit really
+    reads - those of the allocator state [s] reached by any history, [h] = the keys live at that moment:
+    every destructor call is for a LIVE key, with that key's own current value; a live key with destructor
+    and non-NULL value gets its call exactly once; a key that was deleted (and not created again) gets none,
+    whatever the thread still holds under it.  (Added with 7f58d46: before, the theorem had no liveness
+    clause and the model - like the code - kept the destructor of a deleted key.) *)
+Theorem C11_exact_live : forall tagged os s h rs c, 0 < c_leaf c -> 0 <= c_pool c ->
+  seq_hist tagged kinit [] os = Some (s, h, rs) -> forall t, reach c t ->
+  exists evs, fini false c (kdtor s) (kgen s) t = Some evs /\
+    (forall k v, In (k, v) (calls_of evs) -> In k h /\ kdtor s k <> 0 /\ get (kgen s) t k = Some v) /\
+    (forall k v, In k h -> kdtor s k <> 0 -> get (kgen s) t k = Some v -> v <> 0 ->
+                 count_occ zz_eq_dec (calls_of evs) (k, v) = 1%nat) /\
+    (forall k v, ~ In k h -> ~ In (k, v) (calls_of evs)) /\
+    NoDup (map fst (calls_of evs)).
+Proof. exact fini_live. Qed.
+Print Assumptions C11_exact_live.
 
 (** the exact sequences: calls in ascending key order for exactly the keys of
     allocated leaves that have a destructor; cells read = the keys of allocated
